@@ -254,6 +254,33 @@ Fixpoint run_obs (s : st) (ops : list op) : list (list event * st) :=
   end.
 End Take.
 
+(* ---- settings changed on the live bot (config supybot.protocols.irc.throttleTime 10 ...):
+   every call reads the registry when it runs, so a history is a list of calls
+   and of setting changes, and each call runs under the configuration in force ---- *)
+Inductive xop := XOp (o : op) | XSet (k : N) (v : Z).
+Definition set_cfg (c : cfg) (k : N) (v : Z) : cfg :=
+  match k with
+  | 0%N => Cfg v (c_join c) (c_dup c) (c_ping c) (c_interval c) (c_pass c)
+  | 1%N => Cfg (c_throttle c) v (c_dup c) (c_ping c) (c_interval c) (c_pass c)
+  | 2%N => Cfg (c_throttle c) (c_join c) (negb (v =? 0)) (c_ping c) (c_interval c) (c_pass c)
+  | 3%N => Cfg (c_throttle c) (c_join c) (c_dup c) (negb (v =? 0)) (c_interval c) (c_pass c)
+  | 4%N => Cfg (c_throttle c) (c_join c) (c_dup c) (c_ping c) v (c_pass c)
+  | _ => c
+  end.
+Fixpoint run_x (filt : msg -> fres) (c : cfg) (s : st) (xs : list xop) : cfg * st * list event :=
+  match xs with
+  | [] => (c, s, [])
+  | XSet k v :: r => run_x filt (set_cfg c k v) s r
+  | XOp o :: r => let '(s1, e1) := step c filt s o in
+                  let '(c2, s2, e2) := run_x filt c s1 r in (c2, s2, e1 ++ e2)
+  end.
+Fixpoint run_obs_x (filt : msg -> fres) (c : cfg) (s : st) (xs : list xop) : list (list event * st) :=
+  match xs with
+  | [] => []
+  | XSet k v :: r => ([], s) :: run_obs_x filt (set_cfg c k v) s r
+  | XOp o :: r => let '(s1, e1) := step c filt s o in (e1, s1) :: run_obs_x filt c s1 r
+  end.
+
 (* ---- the concrete filter chain installed by the harness ---- *)
 Definition filt_of (m : msg) : fres :=
   match mact m with
@@ -277,6 +304,12 @@ Definition gOp (v : value) : op :=
   | 4%N => Reset (gZ (nth_v 1 v))
   | 5%N => Connect
   | _ => Pong
+  end.
+
+Definition gXop (v : value) : xop :=
+  match gN (nth_v 0 v) with
+  | 7%N => XSet (gN (nth_v 1 v)) (gZ (nth_v 2 v))
+  | _ => XOp (gOp v)
   end.
 
 Definition vE (e : entry) : value := L [I (mid (snd e)); vS (mcmd (snd e))].
@@ -303,7 +336,7 @@ Definition run (v : value) : value :=
   match gN (nth_v 0 v) with
   | 0%N =>
       let c := gCfg (nth_v 0 payload) in
-      let ops := map gOp (gL (nth_v 1 payload)) in
-      L (map (fun r => L [L (map vEvent (fst r)); vSt (snd r)]) (run_obs c filt_of st0 ops))
+      let ops := map gXop (gL (nth_v 1 payload)) in
+      L (map (fun r => L [L (map vEvent (fst r)); vSt (snd r)]) (run_obs_x filt_of c st0 ops))
   | _ => L []
   end.
